@@ -77,6 +77,170 @@ def tie_project(rng, root):
             f.write(src)
 
 
+def _work_func(name, rng):
+    """a function with enough control flow that the CFG based analyses spend time on it (distinct name per file: a file that is analysed twice or not at all shows in the report)"""
+    a, b = rng.randint(2, 9), rng.randint(2, 9)
+    return ("def %s(items, limit):\n    total = 0\n    for index, item in enumerate(items):\n        if item is None:\n            continue\n        if index > limit:\n            break\n"
+            "        try:\n            if item %% %d == 0:\n                total += item * %d\n            elif item %% 3 == 0:\n                total -= item\n            else:\n"
+            "                while item > %d:\n                    item -= %d\n                    if item == limit:\n                        return total\n                    total += 1\n"
+            "        except TypeError:\n            total -= 1\n        finally:\n            limit += 0\n    if total > limit:\n        return total - limit\n    return total\n    total = -1\n"
+            % (name, a, b, b, a))
+
+
+def _work_funcs(name, rng, n):
+    return "\n".join(_work_func("%s_%d" % (name, i) if i else name, rng) for i in range(n))
+
+
+def _work_class(name, base, uses):
+    body = "".join("        self.%s = %s()\n" % (u.lower(), u) for u in uses) or "        self.size = 0\n"
+    return ("class %s%s:\n    def __init__(self):\n%s        self.items = []\n\n    def add(self, item):\n        if item:\n            self.items.append(item)\n        return len(self.items)\n\n"
+            "    def label(self):\n        return '%s'\n" % (name, "(%s)" % base if base else "", body, name))
+
+
+def walk_order(root, targets):
+    """the list of .py files in the order a lexical directory walk yields them (entries of one directory by name, a sub-directory expanded where its name sorts), target after
+    target — the order in which the file list reaches the analyses"""
+    out = []
+
+    def walk(d):
+        for name in sorted(os.listdir(d)):
+            p = os.path.join(d, name)
+            if os.path.isdir(p):
+                walk(p)
+            elif name.endswith(".py"):
+                out.append(p)
+    for t in targets:
+        p = os.path.join(root, t)
+        if os.path.isdir(p):
+            walk(p)
+        else:
+            out.append(p)
+    return out
+
+
+LAYOUTS = ("module-next-to-package", "directory-name-extends-another", "several-targets", "listed-files", "mixed")
+
+
+def layout_project(rng, root, layout, nunits, nfunc=1):
+    """Project LAYOUTS — the property quantifies over every input project and every command, and nothing in it says that the files reach the analyses in plain string
+    order: a module `name.py` next to a package `name/`, a directory whose name extends another one with a character below '/' (`pkg/`, `pkg-tools/`, `pkg.v2/`), several
+    path arguments in arbitrary order, explicitly listed files.  Many small files with distinct function / class names and imports between them, so that every analysis
+    (per-file loops and the module graph) has work on every file.  Returns the list of targets (relative to the parent of `root`)."""
+    os.makedirs(root)
+    open(os.path.join(root, "requirements.txt"), "w").close()
+    files = {}
+    names = ["part%02d" % i for i in range(nunits)]
+    rng.shuffle(names)
+    tops = ["proj"]
+    for i, nm in enumerate(names):
+        kind = layout if layout != "mixed" else rng.choice(LAYOUTS[:3])  # "several-targets" / "listed-files": plain packages, the order comes from the arguments
+        prev = names[i - 1] if i else None
+        imp = "import %s\n" % prev if prev and rng.random() < 0.7 else ""
+        if kind == "module-next-to-package":
+            # walk order: name/__init__.py, name/alpha.py, name/beta.py, name.py ; string order: name.py first ('.' < '/')
+            files["%s/__init__.py" % nm] = "from . import alpha\n" + _work_funcs(nm + "_init", rng, nfunc)
+            files["%s/alpha.py" % nm] = imp + _work_funcs(nm + "_alpha", rng, nfunc) + _work_class(nm.capitalize() + "Alpha", None, [])
+            files["%s/beta.py" % nm] = "from .alpha import %sAlpha\n" % nm.capitalize() + _work_funcs(nm + "_beta", rng, nfunc) + _work_class(nm.capitalize() + "Beta", nm.capitalize() + "Alpha", [nm.capitalize() + "Alpha"])
+            files["%s.py" % nm] = imp + _work_funcs(nm + "_mod", rng, nfunc) + _work_class(nm.capitalize() + "Mod", None, [])
+        elif kind == "directory-name-extends-another":
+            ext = rng.choice(["-tools", ".v2", "-x", " old", "+ext"])
+            files["%s/__init__.py" % nm] = _work_funcs(nm + "_init", rng, nfunc)
+            files["%s/core.py" % nm] = imp + _work_funcs(nm + "_core", rng, nfunc) + _work_class(nm.capitalize() + "Core", None, [])
+            files["%s%s/helper.py" % (nm, ext)] = "import %s.core\n" % nm + _work_funcs(nm + "_helper", rng, nfunc) + _work_class(nm.capitalize() + "Helper", None, [])
+            files["%s%s/zz.py" % (nm, ext)] = _work_funcs(nm + "_zz", rng, nfunc)
+        else:
+            files["%s/__init__.py" % nm] = _work_funcs(nm + "_init", rng, nfunc)
+            files["%s/one.py" % nm] = imp + _work_funcs(nm + "_one", rng, nfunc) + _work_class(nm.capitalize() + "One", None, [])
+            files["%s/two.py" % nm] = "from .one import %sOne\n" % nm.capitalize() + _work_funcs(nm + "_two", rng, nfunc) + _work_class(nm.capitalize() + "Two", nm.capitalize() + "One", [])
+    for rel, src in files.items():
+        fp = os.path.join(root, rel)
+        os.makedirs(os.path.dirname(fp), exist_ok=True)
+        with open(fp, "w") as f:
+            f.write(src)
+    if layout in ("several-targets", "mixed"):
+        # the top-level directories (and top-level modules) as path arguments, in arbitrary order
+        tops = ["proj/" + e for e in sorted(os.listdir(root)) if not e.endswith(".txt")]
+        rng.shuffle(tops)
+    elif layout == "listed-files":
+        # every file named on the command line, in arbitrary order
+        tops = ["proj/" + rel for rel in sorted(files)]
+        rng.shuffle(tops)
+    return tops, files
+
+
+SHAPES = ("ring+tail-out", "ring+tail-in", "ring+tail-in+out", "ring+chord+tail", "two-rings-bridged", "layered-dag", "ring")
+
+
+def import_graph_project(rng, root, shape):
+    """Import-graph SHAPES for the module-level metrics (depth, chains, cycles, coupling): the tie-rich projects only contain rings with chords, where every entry point is
+    equivalent; here a cycle has chains of further imports hanging off one member / leading into one member, two cycles are joined by a chain, or there is no cycle at all —
+    a value that is computed by walking the graph from some start module must not depend on WHICH module the (randomised) map iteration starts from."""
+    os.makedirs(root)
+    open(os.path.join(root, "requirements.txt"), "w").close()
+    pool = ["core", "util", "base", "extra", "more", "leaf", "api", "db", "io", "cfg", "log", "net", "ui", "cli", "job", "task", "auth", "repo", "view", "form"]
+    rng.shuffle(pool)
+    names = iter("%s_%s" % (rng.choice("abcdefghijklmnopqrstuvwxyz"), w) for w in pool)
+    edges = []
+    mods = []
+
+    def new():
+        m = next(names)
+        mods.append(m)
+        return m
+
+    def ring(n):
+        r = [new() for _ in range(n)]
+        for i in range(n):
+            edges.append((r[i], r[(i + 1) % n]))
+        return r
+
+    def chain(start, n, inward=False):
+        cur = start
+        for _ in range(n):
+            nx = new()
+            edges.append((nx, cur) if inward else (cur, nx))
+            cur = nx
+        return cur
+
+    info = {"shape": shape}
+    if shape == "layered-dag":
+        layers = [[new() for _ in range(rng.randint(1, 3))] for _ in range(rng.randint(3, 5))]
+        for a, b in zip(layers, layers[1:]):
+            for x in a:
+                for y in rng.sample(b, rng.randint(1, len(b))):
+                    edges.append((x, y))
+    else:
+        n = rng.randint(2, 4)
+        r = ring(n)
+        info["ring"] = n
+        if shape != "ring":
+            at = rng.choice(r)
+            t = rng.randint(2, 4)
+            info["tail"] = t
+            if shape in ("ring+tail-out", "ring+tail-in+out", "ring+chord+tail"):
+                chain(at, t)
+            if shape in ("ring+tail-in", "ring+tail-in+out"):
+                chain(rng.choice(r), rng.randint(1, 3), inward=True)
+            if shape == "ring+chord+tail" and n >= 3:
+                edges.append((r[0], r[2]))
+            if shape == "two-rings-bridged":
+                end = chain(at, rng.randint(1, 2))
+                r2 = ring(rng.randint(2, 3))
+                edges.append((end, rng.choice(r2)))
+                chain(rng.choice(r2), rng.randint(1, 3))
+    files = {}
+    for m in mods:
+        deps = [b for a, b in edges if a == m]
+        src = "".join(("import %s\n" % d) if rng.random() < 0.6 else ("from %s import helper_%s\n" % (d, d)) for d in deps)
+        src += "\n\ndef helper_%s(x):\n    if x:\n        return x + 1\n    return 0\n\n\nclass %s:\n    def get(self):\n        return helper_%s(1)\n" % (m, m.title().replace("_", ""), m)
+        files[m + ".py"] = src
+        with open(os.path.join(root, m + ".py"), "w") as f:
+            f.write(src)
+    info["modules"] = len(mods)
+    info["edges"] = ["%s -> %s" % e for e in edges]
+    return info, files
+
+
 def run(tier, seed, replay=None):
     res = C.Result(PID, tier, seed)
     rng = random.Random(seed * 1000003 + 5)
@@ -88,9 +252,11 @@ def run(tier, seed, replay=None):
         ">= 1/2 per run once two entries tie",
         "the theorems are about the emission model (what makes a pipeline order-independent); the site inventory (124 map ranges, 68 unstable sorts, 4 goroutine starts, clock sources) is "
         "regenerated and pinned, the individual sites are NOT classified one by one",
+        "scheduling-dependent outcomes (one analysis disturbing another through shared state) are only SAMPLED: project layouts whose file list is not in string order, ~100 files, the "
+        "analyses side by side, k runs under three GOMAXPROCS values; an interference that needs a narrower timing window than these runs offer is not excluded",
     ]
     k = 6 if tier == "quick" else 24
-    hist = {"projects": 0, "runs": 0, "selections": 0}
+    hist = {"projects": 0, "runs": 0, "selections": 0, "file_list_not_in_string_order": 0, "import_cycle_with_tail": 0}
     nontrivial = set()
     tmp = tempfile.mkdtemp(prefix="pv_c05_")
     try:
@@ -125,7 +291,54 @@ def run(tier, seed, replay=None):
             projects.append(("generated clone project %d, LSH forced" % g, p, ["--select", "clones", "--config", cfg]))
         projects.append(("testdata/python (all), --select complexity,deadcode,cbo", allp, ["--select", "complexity,deadcode,cbo"]))
         projects.append(("generated tie-rich project 0, --select deps,clones", os.path.join(tmp, "gen0", "proj"), ["--select", "deps,clones", "--min-complexity", "1"]))
-        for title, proj, extra in projects:
+        # ---- project layouts: the file list reaches the analyses in an order that is not plain string order; every analysis selection that runs more than one analysis
+        # side by side over that list (clone detection left out where the number of files would make it dominate the run time, and included on a smaller project)
+        nlay = 3 if tier == "quick" else 10
+        lay_sel = [["--skip-clones", "--min-complexity", "1"], ["--select", "complexity,deadcode,deps", "--min-complexity", "1"], ["--select", "cbo,lcom,deps"],
+                   ["--skip-clones", "--skip-lcom"], ["--select", "complexity,deps"]]
+        lays = list(LAYOUTS)
+        rng.shuffle(lays)
+        for g in range(nlay):
+            layout = lays[g % len(lays)]
+            p = os.path.join(tmp, "lay%d" % g, "proj")
+            targets, files = layout_project(rng, p, layout, rng.randint(24, 34), 1 if tier == "quick" else rng.randint(1, 3))
+            order = walk_order(os.path.dirname(p), targets)
+            unsorted = order != sorted(order)
+            hist["layout:" + layout] = hist.get("layout:" + layout, 0) + 1
+            hist["file_list_not_in_string_order"] += int(unsorted)
+            sel = lay_sel[0] if g == 0 else rng.choice(lay_sel)
+            hist["selections"] += 1
+            projects.append(("generated layout project %d (%s, %d files, file list %s string order)" % (g, layout, len(files), "NOT in" if unsorted else "in"), p, sel, targets,
+                             {"layout": layout, "targets": targets, "files": files}))
+        # small projects of every layout with ALL analyses (clone detection included) side by side
+        for g in range(2 if tier == "quick" else 5):
+            layout = lays[(nlay + g) % len(lays)]
+            p = os.path.join(tmp, "laysmall%d" % g, "proj")
+            targets, files = layout_project(rng, p, layout, rng.randint(3, 5))
+            order = walk_order(os.path.dirname(p), targets)
+            unsorted = order != sorted(order)
+            hist["file_list_not_in_string_order"] += int(unsorted)
+            hist["layout:" + layout] = hist.get("layout:" + layout, 0) + 1
+            hist["selections"] += 1
+            projects.append(("generated small layout project %d (%s, %d files, file list %s string order), all analyses" % (g, layout, len(files), "NOT in" if unsorted else "in"), p,
+                             ["--min-complexity", "1"] if g % 2 == 0 else [], targets, {"layout": layout, "targets": targets, "files": files}))
+        # ---- import-graph shapes, module-level analysis alone and next to others
+        shapes = list(SHAPES)
+        rng.shuffle(shapes)
+        nshape = 14 if tier == "quick" else 42
+        for g in range(nshape):
+            shape = shapes[g % len(shapes)]
+            p = os.path.join(tmp, "shape%d" % g, "proj")
+            info, files = import_graph_project(rng, p, shape)
+            hist["shape:" + shape] = hist.get("shape:" + shape, 0) + 1
+            hist["import_cycle_with_tail"] += int(shape.startswith("ring+") or shape == "two-rings-bridged")
+            sel = ["--select", "deps"] if g % 3 != 2 else rng.choice([["--select", "deps,cbo"], ["--skip-clones"], []])
+            hist["selections"] += 1
+            projects.append(("generated import-graph project %d (%s, %d modules)" % (g, shape, info["modules"]), p, sel, ["proj"], dict(info, files=files)))
+        for ent in projects:
+            title, proj, extra = ent[:3]
+            targets = ent[3] if len(ent) > 3 else ["proj"]
+            rinfo = ent[4] if len(ent) > 4 else {}
             hist["projects"] += 1
             root = os.path.dirname(proj)
             base = None
@@ -134,11 +347,11 @@ def run(tier, seed, replay=None):
                 env = dict(os.environ, GOMAXPROCS=str([1, 4, 16][r % 3]))
                 rep = os.path.join(root, ".pyscn", "reports")
                 shutil.rmtree(rep, ignore_errors=True)
-                rc, out, err = C.pyscn(["analyze", "--json", "--no-open"] + extra + ["proj"], cwd=root, env=env)
+                rc, out, err = C.pyscn(["analyze", "--json", "--no-open"] + extra + targets, cwd=root, env=env)
                 hist["runs"] += 1
                 got = glob.glob(os.path.join(rep, "*.json"))
                 if not got:
-                    res.violation("analyze produced no JSON report on %s: %s" % (title, err[-300:]), {"project": title})
+                    res.violation("analyze produced no JSON report on %s: %s" % (title, err[-300:]), dict(rinfo, project=title, flags=extra))
                     break
                 d = strip(json.load(open(got[0])))
                 if base is None:
@@ -157,7 +370,8 @@ def run(tier, seed, replay=None):
                     if kf:
                         res.known_finding(kf, "(%s)" % what[:260])
                     else:
-                        res.violation(what, {"signature": sig, "project": title, "flags": extra, "run": r + 1, "gomaxprocs": env["GOMAXPROCS"]})
+                        res.violation(what, dict(rinfo, signature=sig, project=title, flags=extra, run=r + 1, gomaxprocs=env["GOMAXPROCS"],
+                                                   command="pyscn analyze --json --no-open %s" % " ".join(extra + (targets if len(targets) <= 8 else targets[:8] + ["…"]))))
     finally:
         shutil.rmtree(tmp, ignore_errors=True)
     if not ps.ok and not any(fi for _, _, fi in res.violations):
@@ -166,8 +380,11 @@ def run(tier, seed, replay=None):
         "evaluations": hist["runs"],
         "distinct_nontrivial": len(nontrivial),
         "rule": "the repository's own testdata (all of it and five sub-projects) + generated tie-rich projects (equal complexities, equal CBO/LCOM, equal-size import cycles, identical clone "
-                "groups, several dead blocks per function), full analysis and two --select subsets; %d runs each with GOMAXPROCS 1/4/16 in turn, compared with the first run including list order" % k,
-        "samples": [{"project": t, "flags": e, "runs": k} for t, _, e in projects[:3]],
+                "groups, several dead blocks per function), full analysis and two --select subsets; generated project LAYOUTS whose file list is not in string order (module next to a "
+                "package of the same name, directory names extending one another with a character below '/', several path arguments / explicitly listed files in arbitrary order; ~100 files, "
+                "analyses side by side) and import-graph SHAPES (cycle with a chain hanging off / leading into one member, two cycles joined by a chain, chord, layered DAG, bare ring) "
+                "with `--select deps` and wider selections; %d runs each with GOMAXPROCS 1/4/16 in turn, compared with the first run including list order" % k,
+        "samples": [{"project": e[0], "flags": e[2], "runs": k} for e in projects[:3] + projects[-19:-8]],
         "traces_validated_against_impl": hist["runs"],
         "distribution": hist,
     })
